@@ -77,6 +77,12 @@ func alphHeaderRule(c *Ctx, p *Program, rule string) {
 			}
 		}
 	}
+	// the forward filters stay opaque when they are reached through a dispatch helper
+	for _, f2 := range p.SrcFuncs() {
+		if f2.Pkg == fn.Pkg && f2.Parent() == nil && strings.HasPrefix(f2.Name(), "alphaFilter") {
+			opq = append(opq, f2.Name())
+		}
+	}
 	out := sxExplore(p, fn, writerArgs(fn), 20000, nil, opq...)
 	pos := p.Pos(fn.Pos())
 	var firstUnd string
@@ -179,6 +185,17 @@ func filterCodeOf(p *Program, callee string) int64 {
 	for code, name := range switchCallees(fn, "alphaFilter") {
 		if name == callee {
 			return code
+		}
+	}
+	// the dispatch may have been moved into a helper of the package
+	for _, f2 := range p.SrcFuncs() {
+		if f2.Pkg != fn.Pkg || f2 == fn || f2.Blocks == nil {
+			continue
+		}
+		for code, name := range switchCallees(f2, "alphaFilter") {
+			if name == callee {
+				return code
+			}
 		}
 	}
 	return -1
